@@ -105,6 +105,9 @@ def run(e: Engine, rep: Report):
              'of a message is deleted only inside remove() and its private '
              'helpers')
     r114(e, rep)
+    from . import c03 as _c03
+    _c03.r39(e, rep, 'R1.15')
+    c11.n10(e, rep, 'R1.16')
     rep.floor('R1.2', 5, 'removal sites')
     rep.floor('R1.5', 3, 'backend uses of the index argument')
 
